@@ -18,6 +18,15 @@ def run(ctx):
             ctx.violations.append({"kind": "violation", "sig": "lb/rejected", "count": 1, "path": [],
                                    "detail": "decision %s of the recorded trace is not allowed by LB.tla (round-robin out of turn, a loop that is not least loaded, or a different loop for an address seen before): %s" % (r["prefix"], r.get("event"))})
         ctx.samples.append(open(t).read().splitlines()[:4])
+    # the other way into the balancer: Engine.Register on real engines (Source-Addr-Hash; one remote address, contexts carrying
+    # a connection, an address, both, or a connection and some other address)
+    t = os.path.join(ctx.scratch, "lb.register.ndjson")
+    rep = vlib.go_harness(ctx, ".", "TestVerifRegisterLB", name="lb-register", env={"VERIF_TRACE": t}, timeout=300, netns=True)
+    vlib.absorb(ctx, rep, "lb-register")
+    r = vlib.validate_trace(ctx, "LBTrace", "LBTrace.cfg", t, name="trace-lb-register", timeout=300)
+    if r["violated"] or not r["accepted"]:
+        ctx.violations.append({"kind": "violation", "sig": "lb/register/rejected", "count": 1, "path": [],
+                               "detail": "registration %s of the recorded trace is not allowed by LB.tla (a different loop for a remote address seen before): %s" % (r["prefix"], r.get("event"))})
     # the acceptor of real engines: reactor-mode lives balancing Round-Robin (half of them over several listeners) must hand
     # their connections out cyclically (TrLB.tla; Engine.tla with LB = "rr": RRBalanced), and every connection is opened on
     # the loop it was handed to
